@@ -1,11 +1,12 @@
 (** C07 - Every way of reading parameters returns the tree's current values.
     Only statements here; proofs are in proofs/ParamCacheProofs.v.  All statements are
     about the functions of model/ParamCache.v that corr/Corr_C07.v runs against the
-    implementation: [step] / [run] in mode [Fixed] (the system with its per-system cache,
-    reforms, load_parameters), [read_view], [read_direct], [read_traced] (the routes),
-    [vector_lookup] / [apply_tail] (fancy indexing), [asof_lookup] (indexing by dates).
-    [ref_run] is the same sequence of operations on a system WITHOUT any cache, where
-    every read evaluates [at_instant] of the current tree.  The vocabulary of the
+    implementation: [wstep] / [wrun] in mode [Fixed] (a world of systems - baseline,
+    reforms, reforms of reforms - each with its own cache; load_parameters, modifiers),
+    [read_view], [read_direct], [read_traced] (the routes), [vector_lookup] /
+    [apply_tail] (fancy indexing), [asof_lookup] (indexing by dates).  Mode [NoCache] is
+    the same world WITHOUT any cache: every read evaluates [at_instant] of the tree the
+    system holds ([get_parameters_at_instant NoCache s i = (s, at_instant (s_root s) i)]).  The vocabulary of the
     statements is in model/ParamCacheSpec.v.  Dates are ordinals. *)
 From Coq Require Import ZArith List Bool String.
 From Verif Require Import Base Cal Param ParamCache ParamCacheSpec ParamCacheProofs.
@@ -13,45 +14,51 @@ Import ListNotations.
 Open Scope Z_scope.
 Open Scope string_scope.
 
-(** ** Reads never see the cache: after ANY interleaving of reads with replacements of
-    the tree (load / assignment, reforms and their modifiers), every answer of every
-    route is the one computed from [at_instant (current root)] *)
+(** ** Reads never see a cache: in a world of systems (a baseline, reforms over it,
+    reforms of reforms), after ANY interleaving of reads on any system with replacements
+    of any system's tree (load / assignment, new reforms, modifiers), every answer of
+    every route is the one of the world without caches, i.e. computed from [at_instant]
+    of the tree held by the system that is read *)
 
-Theorem views_agree : forall (t0 : tree) (ops : list op),
+Theorem views_agree : forall (t0 : tree) (ops : list (nat * op)),
   forallb documented ops = true ->
-  run Fixed (init t0) ops = ref_run (None, t0) ops.
+  wrun Fixed (init t0) ops = wrun NoCache (init t0) ops.
 Proof. exact views_agree_init. Qed.
 Print Assumptions views_agree.
 
-(** the invariant behind it: the cache is part of the graph of [at_instant (current
-    root)] whenever it carries the identity of the current root; it holds initially, is
-    kept by every documented operation (the cache is dropped at each reassignment of the
-    root), and from any state that satisfies it the machine answers as the reference *)
-Theorem views_agree_from_invariant : forall (ops : list op) (s : sys),
-  cache_ok s -> forallb documented ops = true ->
-  run Fixed s ops = ref_run (erase s) ops.
+(** the invariant behind it: each system's cache is part of the graph of [at_instant] of
+    that system's current tree whenever it carries the identity of that tree; it holds
+    initially, is kept by every documented operation on any system (the cache is dropped
+    at each reassignment of the tree, a new reform starts without a valid cache), and
+    from any world that satisfies it the answers are those of the cache-free world *)
+Theorem views_agree_from_invariant : forall (ops : list (nat * op)) (w w0 : world),
+  world_ok w -> same_world w w0 -> forallb documented ops = true ->
+  wrun Fixed w ops = wrun NoCache w0 ops.
 Proof. exact views_agree_gen. Qed.
 Print Assumptions views_agree_from_invariant.
 
-Theorem cache_invariant_reachable : forall (t0 : tree) (ops : list op),
-  forallb documented ops = true -> cache_ok (exec Fixed (init t0) ops).
+Theorem cache_invariant_reachable : forall (t0 : tree) (ops : list (nat * op)),
+  forallb documented ops = true -> world_ok (wexec Fixed (init t0) ops).
 Proof. exact reachable_ok_init. Qed.
 Print Assumptions cache_invariant_reachable.
 
-(** at every reachable state, one more read by any route at any date *)
-Theorem read_returns_current_tree : forall (t0 : tree) (ops : list op) (r : route) (p : path) (i : Z) (t : tail),
+(** in every reachable world, one more read by any route at any date on ANY system
+    answers from the tree THAT system holds *)
+Theorem read_returns_current_tree : forall (t0 : tree) (ops : list (nat * op)) (k : nat) (s : sys)
+    (r : route) (p : path) (i : Z) (t : tail),
   forallb documented ops = true ->
-  let s := exec Fixed (init t0) ops in
-  snd (step Fixed s (Read r p i t)) = read_spec (s_root s) r p i t.
+  let w := wexec Fixed (init t0) ops in
+  nth_error (w_sys w) k = Some s ->
+  snd (wstep Fixed w (k, Read r p i t)) = read_spec (s_root s) r p i t.
 Proof. exact read_current. Qed.
 Print Assumptions read_returns_current_tree.
 
-(** the at-instant view handed out is the view of the current tree, whatever was read
-    before *)
-Theorem get_parameters_at_instant_is_current : forall (s : sys) (i : Z),
-  cache_ok s ->
+(** the at-instant view handed out is the view of the system's current tree, whatever
+    was read before *)
+Theorem get_parameters_at_instant_is_current : forall (n : nat) (s : sys) (i : Z),
+  cache_ok n s ->
   let '(s', ov) := get_parameters_at_instant Fixed s i in
-  ov = at_instant (s_root s) i /\ cache_ok s' /\ erase s' = erase s.
+  ov = at_instant (s_root s) i /\ cache_ok n s' /\ same_trees s' s.
 Proof. exact get_parameters_at_instant_current. Qed.
 Print Assumptions get_parameters_at_instant_is_current.
 
@@ -76,18 +83,18 @@ Proof. exact missing_in_both. Qed.
 Print Assumptions routes_agree_on_missing_paths.
 
 (** distinct member names are kept by every operation (loaded trees have them) *)
-Theorem unique_names_reachable : forall (m : mode) (ops : list op) (s : sys),
-  wf_sys s -> Forall wf_op ops -> wf_sys (exec m s ops).
-Proof. exact exec_wf. Qed.
+Theorem unique_names_reachable : forall (m : mode) (ops : list (nat * op)) (w : world),
+  wf_world w -> Forall wf_op ops -> wf_world (wexec m w ops).
+Proof. exact wexec_wf. Qed.
 Print Assumptions unique_names_reachable.
 
 (** ** The tracing wrapper is transparent: same state, same answer as the untraced
     formula, which is the answer of the system view *)
 
-Theorem tracing_transparent : forall (m : mode) (s : sys) (p : path) (i : Z) (t : tail),
-  fst (step m s (Read (RFormula true) p i t)) = fst (step m s (Read (RFormula false) p i t)) /\
-  fst (snd (step m s (Read (RFormula true) p i t))) = fst (snd (step m s (Read (RFormula false) p i t))) /\
-  fst (snd (step m s (Read (RFormula false) p i t))) = fst (snd (step m s (Read RSystem p i t))).
+Theorem tracing_transparent : forall (m : mode) (w : world) (k : nat) (p : path) (i : Z) (t : tail),
+  fst (wstep m w (k, Read (RFormula true) p i t)) = fst (wstep m w (k, Read (RFormula false) p i t)) /\
+  fst (snd (wstep m w (k, Read (RFormula true) p i t))) = fst (snd (wstep m w (k, Read (RFormula false) p i t))) /\
+  fst (snd (wstep m w (k, Read (RFormula false) p i t))) = fst (snd (wstep m w (k, Read RSystem p i t))).
 Proof. exact tracing_transparent_lemma. Qed.
 Print Assumptions tracing_transparent.
 
@@ -170,9 +177,9 @@ Print Assumptions asof_without_dated_member.
     documented operations suffice to read a value the tree no longer defines *)
 
 Theorem views_agree_refuted_lru :
-  exists (t0 : tree) (ops : list op),
+  exists (t0 : tree) (ops : list (nat * op)),
     List.length ops = 3%nat /\ forallb documented ops = true /\
-    run Lru (init t0) ops <> ref_run (None, t0) ops.
+    wrun Lru (init t0) ops <> wrun NoCache (init t0) ops.
 Proof. exact views_agree_refuted_lru_lemma. Qed.
 Print Assumptions views_agree_refuted_lru.
 
@@ -186,40 +193,61 @@ Definition ex_tree : tree :=
                          ("after_2010_06_01", ex_leaf 3)])].
 Definition ex_tree2 : tree := TNode [("a", TNode [("b", ex_leaf 3)])].
 
-(** views_agree: read, reform + modifier, read again, reload, read again - by all routes;
-    the answers change with the tree (1, then 77, then 3) *)
+(** views_agree: three systems - the baseline 0, a reform 1 with a modifier, a
+    variables-only reform 2 of the baseline - with reads before and after every change;
+    each system keeps answering from ITS OWN tree (baseline 1 then 3, reform 1: 77,
+    reform 2: stays at 1 when the baseline is reloaded, also when the baseline is read
+    first) *)
 Example views_agree_nonvacuous :
-  let ops := [Read RSystem ["a"; "b"] 200 TWhole;
-              BeginReform;
-              Read (RFormula true) ["a"; "b"] 200 TWhole;
-              Modify [(["a"; "b"], (150, None, Some 77))] true;
-              Read RSystem ["a"; "b"] 200 TWhole;
-              Read (RFormula false) ["a"; "b"] 200 TWhole;
-              Read RDirect ["a"; "b"] 200 TWhole;
-              Load ex_tree2;
-              Read RSystem ["a"; "b"] 200 TWhole] in
+  let rd := fun k r => (k, Read r ["a"; "b"] 200 TWhole) in
+  let ops := [rd 0%nat RSystem;
+              (0%nat, NewReform);                 (* system 1 *)
+              rd 1%nat (RFormula true);
+              (1%nat, Modify [(["a"; "b"], (150, None, Some 77))] true);
+              rd 1%nat RSystem; rd 1%nat (RFormula false); rd 1%nat RDirect;
+              (0%nat, NewReform);                 (* system 2: no modifier *)
+              rd 2%nat RSystem; rd 0%nat RSystem;
+              (0%nat, Load ex_tree2);
+              rd 0%nat RSystem; rd 2%nat RSystem; rd 2%nat (RFormula true); rd 1%nat RSystem] in
   forallb documented ops = true /\
-  map fst (run Fixed (init ex_tree) ops) =
+  map fst (wrun Fixed (init ex_tree) ops) =
     [Ok (RView (VValue 1)); Ok RNone; Ok (RView (VValue 1)); Ok RNone; Ok (RView (VValue 77));
-     Ok (RView (VValue 77)); Ok (RView (VValue 77)); Ok RNone; Ok (RView (VValue 3))].
+     Ok (RView (VValue 77)); Ok (RView (VValue 77)); Ok RNone; Ok (RView (VValue 1)); Ok (RView (VValue 1));
+     Ok RNone; Ok (RView (VValue 3)); Ok (RView (VValue 1)); Ok (RView (VValue 1)); Ok (RView (VValue 77))].
 Proof. vm_compute. split; reflexivity. Qed.
 
-(** the hypotheses of the invariant form are satisfiable by a state with a non-empty,
+(** a modifier starts from the baseline's CURRENT tree: after the baseline is reloaded,
+    a second modify_parameters of the same reform builds on the new tree *)
+Example modifier_reads_current_baseline :
+  map fst (wrun Fixed (init ex_tree)
+             [(0%nat, NewReform); (0%nat, Load ex_tree2);
+              (1%nat, Modify [(["a"; "b"], (300, None, Some 5))] true);
+              (1%nat, Read RSystem ["a"; "b"] 200 TWhole); (1%nat, Read RSystem ["a"; "b"] 400 TWhole)]) =
+    [Ok RNone; Ok RNone; Ok RNone; Ok (RView (VValue 3)); Ok (RView (VValue 5))].
+Proof. vm_compute. reflexivity. Qed.
+
+(** the hypotheses of the invariant form are satisfiable by a world with a non-empty,
     valid cache: the one reached after a read *)
 Example cache_invariant_nonvacuous :
-  let s := exec Fixed (init ex_tree) [Read RSystem ["a"; "b"] 200 TWhole] in
-  cache_ok s /\ s_cache s <> [] /\ s_cached s = Some (s_rid s).
+  let w := wexec Fixed (init ex_tree) [(0%nat, Read RSystem ["a"; "b"] 200 TWhole)] in
+  world_ok w /\
+  exists s, nth_error (w_sys w) 0 = Some s /\ s_cache s <> [] /\ s_cached s = Some (s_rid s).
 Proof.
-  split; [apply cache_invariant_reachable; reflexivity|]. vm_compute. split; [discriminate | reflexivity].
+  split; [apply cache_invariant_reachable; reflexivity|]. eexists. vm_compute.
+  split; [reflexivity|]. split; [discriminate | reflexivity].
 Qed.
 
 (** in-place mutation of the live tree is NOT covered (it is not a documented route):
-    the model, like the code, then answers from the stale view *)
+    the model, like the code, then answers from the stale view - and a reform that still
+    shares the tree object sees the mutation too *)
 Example poke_is_outside_the_claim :
-  map fst (run Fixed (init ex_tree)
-             [Read RSystem ["a"; "b"] 200 TWhole; Poke ["a"; "b"] (150, None, Some 77);
-              Read RSystem ["a"; "b"] 200 TWhole; Read RDirect ["a"; "b"] 200 TWhole]) =
-    [Ok (RView (VValue 1)); Ok RNone; Ok (RView (VValue 1)); Ok (RView (VValue 77))].
+  map fst (wrun Fixed (init ex_tree)
+             [(0%nat, Read RSystem ["a"; "b"] 200 TWhole); (0%nat, NewReform);
+              (0%nat, Poke ["a"; "b"] (150, None, Some 77));
+              (0%nat, Read RSystem ["a"; "b"] 200 TWhole); (0%nat, Read RDirect ["a"; "b"] 200 TWhole);
+              (1%nat, Read RSystem ["a"; "b"] 200 TWhole)]) =
+    [Ok (RView (VValue 1)); Ok RNone; Ok RNone; Ok (RView (VValue 1)); Ok (RView (VValue 77));
+     Ok (RView (VValue 77))].
 Proof. vm_compute. reflexivity. Qed.
 
 (** routes_agree: both cases of the statement occur *)
@@ -244,9 +272,9 @@ Proof. split; [reflexivity|]. eexists. vm_compute. split; reflexivity. Qed.
 
 (** tracing: a traced read returns the value and records it under its dotted name *)
 Example tracing_nonvacuous :
-  snd (step Fixed (init ex_tree) (Read (RFormula true) ["a"; "b"] 200 TWhole)) =
+  snd (wstep Fixed (init ex_tree) (0%nat, Read (RFormula true) ["a"; "b"] 200 TWhole)) =
     (Ok (RView (VValue 1)), [("a.b", RView (VValue 1))]) /\
-  snd (step Fixed (init ex_tree) (Read (RFormula true) ["zones"] 200 (TVec ["z2"; "z1"] []))) =
+  snd (wstep Fixed (init ex_tree) (0%nat, Read (RFormula true) ["zones"] 200 (TVec ["z2"; "z1"] []))) =
     (Ok (RRows [VValue 20; VValue 10]), [("zones", RRows [VValue 20; VValue 10])]).
 Proof. vm_compute. split; reflexivity. Qed.
 
@@ -297,8 +325,8 @@ Proof. vm_compute. repeat split; reflexivity. Qed.
 
 (** the witness of the old defect, spelled out: view 1, tree 3 *)
 Example lru_witness_spelled_out :
-  run Lru (init lru_tree1) lru_witness =
+  wrun Lru (init lru_tree1) lru_witness =
     [(Ok (RView (VValue 1)), []); (Ok RNone, []); (Ok (RView (VValue 1)), [])] /\
-  run Fixed (init lru_tree1) lru_witness =
+  wrun Fixed (init lru_tree1) lru_witness =
     [(Ok (RView (VValue 1)), []); (Ok RNone, []); (Ok (RView (VValue 3)), [])].
 Proof. vm_compute. split; reflexivity. Qed.
